@@ -30,9 +30,9 @@ def pkg_name(pkgdir):
     return os.path.basename(pkgdir)
 
 
-def build_overlay(h, work):
+def build_overlay(h, work, racy=""):
     instr = os.path.join(work, "instr")
-    r = subprocess.run([GOBMC, "-repo", REPO, "-instrument", instr, "-overlay", os.path.join(ROOT, "harness", h["dir"]), "-pkg", h["pkg"]],
+    r = subprocess.run([GOBMC, "-repo", REPO, "-instrument", instr, "-racyfields", racy, "-overlay", os.path.join(ROOT, "harness", h["dir"]), "-pkg", h["pkg"]],
                        capture_output=True, text=True)
     if r.returncode != 0:
         return None, "instrumentation failed: " + r.stderr.strip()[-500:]
@@ -53,10 +53,12 @@ def run_replay(cexdir, race=False, keep=False):
     h = cex["harness"]
     work = tempfile.mkdtemp(prefix="verif-replay-", dir="/var/tmp")
     try:
-        ov, msg = build_overlay(h, work)
+        racy = ",".join(x for x in (cex.get("racy_cells") or []) if "@" not in x and "." in x)
+        ov, msg = build_overlay(h, work, racy)
         if ov is None:
             return None, msg, ""
-        env = dict(os.environ, VERIF_CEX=os.path.join(cexdir, "cex.json"), GOFLAGS="-mod=mod", GOPROXY="off")
+        env = dict(os.environ, VERIF_CEX=os.path.join(cexdir, "cex.json"), GOFLAGS="-mod=mod", GOPROXY="off",
+                   VERIF_POINTS=os.path.join(work, "instr", "points.txt"))
         env.pop("GOTOOLCHAIN", None)
         cmd = ["go", "test", "-overlay", ov, "-vet=off", "-count=1", "-run", "^TestVerifReplay$", "-timeout", "120s", "-v"]
         if race:
@@ -92,6 +94,8 @@ def replay_dir(cexdir):
         if res and res.get("diverged"):
             return False, "diverged: " + res["diverged"]
         return False, "process did not crash"
+    if race and "WARNING: DATA RACE" in out:
+        return True, "race detector reported a data race"
     if ("REPLAY-ASSERT-FAILED " + ob + "\n") in out and not race:
         return True, "assertion %s failed natively%s" % (ob, " (the process panicked later in the same run)" if crashed else "")
     if crashed:
